@@ -3,12 +3,12 @@ import time
 
 from framework.checklib import CorrResult
 from harness import gen, histcorr, semoracle
-from translator import t6_converters, t9_circuit_core
+from translator import t6_converters, t9_circuit_core, t10_circuit_algos
 
 ID = 'C14'
-TRANSLATORS = [t6_converters.translate, t9_circuit_core.translate]
+TRANSLATORS = [t6_converters.translate, t9_circuit_core.translate, t10_circuit_algos.translate]
 PROPERTY_FILE = 'Properties/C14.v'
-THEOREMS = ['C14_rules_denotation', 'C14_rules_three_valued_refine', 'C14_rules_regenerated',
+THEOREMS = ['C14_into_bench_regenerated', 'C14_rules_denotation', 'C14_rules_three_valued_refine', 'C14_rules_regenerated',
             'C14_rules_regenerated_eq', 'C14_rules_error_kind_corner', 'C14_interface_unchanged', 'C14_well_formed',
             'C14_function_preserved', 'C14_total_assignments', 'C14_truth_table_preserved',
             'C14_arities_accepted', 'C14_evaluate', 'C14_get_truth_table', 'C14_get_truth_table_returns', 'C14_bench_basis',
